@@ -1328,7 +1328,12 @@ class Executor(object):
         c = self.reg.contracts.get('%s.__init__' % ci.key)
         if self.cur_policy(ci.key + '.__init__') == 'opaque' or self.cur_policy(ci.key) == 'opaque' or (decl is None and c is None and
                                                               self.cur_policy(ci.key) != 'inline'):
-            return self.opaque_call(st, ci.name, None, args, kwargs, node)
+            outs_ = self.opaque_call(st, ci.name, None, args, kwargs, node)
+            from .values import opaque_is_none
+            for s_, r_ in outs_:
+                if isinstance(r_, VOpaque):
+                    s_.assume(z3.Not(opaque_is_none(r_.t)))      # a constructor never returns None
+            return outs_
         obj = self.new_ref(st, ci.key)
         if init is None:
             return [(st, obj)]
@@ -1466,6 +1471,8 @@ class Executor(object):
             post.old = oldst
             post.old.env = dict(env)
             for e in c.get('ensures', []):
+                if callable(e) and c.get('bounded'):
+                    continue        # concrete (bounded-check) clause: not usable symbolically
                 s2.assume(self.spec_bool(post, e))
                 post.pc = s2.pc
             s2.heap = post.heap if False else s2.heap
@@ -1677,6 +1684,9 @@ class Executor(object):
         raise Unsupported('global statement')
 
     def ex_Import(self, st, stmt):
+        for a in stmt.names:
+            top = (a.asname or a.name).split('.')[0]
+            st.env[top] = VFunc('module', a.name if a.asname else a.name.split('.')[0], name=a.name)
         return [(st, (NEXT, None))]
 
     def ex_ImportFrom(self, st, stmt):
